@@ -236,3 +236,23 @@ func (s *Sim) Schedule() string {
 	}
 	return strings.Join(l, "; ")
 }
+
+// Setup renders what a schedule's labels do not say: the kind of each caller context and the wire
+// shape of each delivery (only non-default ones).
+func (s *Sim) Setup() string {
+	var p []string
+	for _, id := range s.order {
+		if c := s.calls[id]; c.CtxKind != 0 {
+			p = append(p, fmt.Sprintf("ctx(%d)=kind%d", id, c.CtxKind))
+		}
+	}
+	for k := int64(0); k < int64(len(s.notifs))+8; k++ {
+		if n, ok := s.notifs[k]; ok && n.Shape != 0 {
+			p = append(p, fmt.Sprintf("notif(%d)=shape%d", k, n.Shape))
+		}
+	}
+	if len(p) == 0 {
+		return ""
+	}
+	return " [" + strings.Join(p, " ") + "]"
+}
